@@ -863,3 +863,155 @@ func chainCase(r *rand.Rand, id string) tcase {
 	r.Shuffle(len(files), func(a, b int) { files[a], files[b] = files[b], files[a] })
 	return tcase{ID: id, Files: files}
 }
+
+// ---------------------------------------------------------------------------------------------
+// several revisions of an imported module; histories
+//
+// Module b is loaded in two or three revisions whose same-named typedefs differ (kind, units,
+// default, patterns, ...).  Module a (and sometimes a2) imports b once or twice, each import under
+// its own prefix, pinned to a revision with revision-date, not pinned (the latest loaded revision
+// is meant), or pinned to a revision that is not loaded.  References go to the prefixed names
+// directly, through local typedefs, through typedefs of typedefs and through union members.
+//
+// With history = true only some of the files are there for the first Process; the rest (newer or
+// older revisions of b) is loaded afterwards and everything is processed again: what a prefix
+// denotes may change between the runs, and every resolved type has to follow.
+
+var revDates = []string{"2019-01-01", "2020-02-02", "2021-03-03"}
+
+var tdVariants = []string{
+	"type string { pattern \"x.*\"; } units \"old-units\"; default \"xold\";",
+	"type int32; units \"new-units\"; default \"7\";",
+	"type string { length \"1..10\"; pattern \"a+\"; }",
+	"type uint8 { range \"1..100\"; } default \"5\";",
+	"type enumeration { enum e0; enum e1 { value 5; } } default \"e0\";",
+	"type decimal64 { fraction-digits 2; range \"1..10\"; } units \"m\";",
+	"type bits { bit b0; bit b1; }",
+	"type union { type string; type int8; }",
+	"type boolean; default \"true\";",
+	"type leafref { path \"../x\"; }",
+	"type int16 { range \"-5..5\"; } units \"k\";",
+	"type string; units \"s\";",
+}
+
+var siteRestrictions = []string{"", "", " pattern \".*z\";", " length \"2..8\";", " range \"2..4\";", " pattern \"x.*\";"}
+
+func revisionCase(r *rand.Rand, id string, history bool) tcase {
+	p := func(prob int) bool { return r.Intn(100) < prob }
+	nRev := 2 + r.Intn(2)
+	dates := append([]string{}, revDates[:nRev]...)
+	withSub := p(25)
+	var bFiles []srcFile
+	perm := r.Perm(len(tdVariants))
+	for i, d := range dates {
+		var sb strings.Builder
+		fmt.Fprintf(&sb, "module b { namespace \"urn:b\"; prefix pb;\n")
+		if withSub {
+			sb.WriteString("include bs;\n")
+		}
+		for j := i; j >= 0; j-- {
+			fmt.Fprintf(&sb, "revision %s;\n", dates[j])
+		}
+		if !p(8) {
+			fmt.Fprintf(&sb, "typedef t { %s }\n", tdVariants[perm[i]])
+		}
+		if p(60) {
+			ref := []string{"t", "pb:t"}[r.Intn(2)]
+			if withSub && p(40) {
+				ref = "s"
+			}
+			fmt.Fprintf(&sb, "typedef u { type %s {%s }", ref, siteRestrictions[r.Intn(len(siteRestrictions))])
+			if p(40) {
+				fmt.Fprintf(&sb, " units \"u%d\";", i)
+			}
+			sb.WriteString(" }\n")
+		}
+		fmt.Fprintf(&sb, "leaf bl%d { type t; }\n}\n", i)
+		bFiles = append(bFiles, srcFile{"b@" + d + ".yang", sb.String()})
+	}
+	var other []srcFile
+	if withSub {
+		other = append(other, srcFile{"bs.yang", fmt.Sprintf("submodule bs { belongs-to b { prefix pb; }\ntypedef s { %s }\n}\n", tdVariants[perm[len(perm)-1]])})
+	}
+	pin := func() string {
+		x := r.Intn(100)
+		lim := 45
+		if history {
+			lim = 65
+		}
+		switch {
+		case x < lim:
+			return ""
+		case x < 93:
+			return fmt.Sprintf(" revision-date %s;", dates[r.Intn(len(dates))])
+		default:
+			return " revision-date 2018-08-08;"
+		}
+	}
+	importer := func(name, own string, extra string) string {
+		var sb strings.Builder
+		fmt.Fprintf(&sb, "module %s { namespace \"urn:%s\"; prefix %s;\n", name, name, own)
+		pf := []string{"old", "new"}
+		if p(50) {
+			pf = pf[:1]
+		}
+		if p(30) {
+			pf[0] = "pb" // the import prefix equals the imported module's own prefix
+		}
+		for _, q := range pf {
+			fmt.Fprintf(&sb, "import b { prefix %s;%s }\n", q, pin())
+		}
+		sb.WriteString(extra)
+		n := 0
+		for _, q := range pf {
+			n++
+			fmt.Fprintf(&sb, "typedef mine%d { type %s:t {%s }", n, q, siteRestrictions[r.Intn(len(siteRestrictions))])
+			if p(30) {
+				fmt.Fprintf(&sb, " units \"mu%d\";", n)
+			}
+			sb.WriteString(" }\n")
+			fmt.Fprintf(&sb, "typedef mine2%d { type mine%d {%s }", n, n, siteRestrictions[r.Intn(len(siteRestrictions))])
+			if p(30) {
+				fmt.Fprintf(&sb, " default \"d%d\";", n)
+			}
+			sb.WriteString(" }\n")
+			fmt.Fprintf(&sb, "leaf direct%d { type %s:t; }\n", n, q)
+			fmt.Fprintf(&sb, "leaf directu%d { type %s:u; }\n", n, q)
+			fmt.Fprintf(&sb, "leaf site%d { type %s:t {%s } }\n", n, q, siteRestrictions[r.Intn(len(siteRestrictions))])
+			fmt.Fprintf(&sb, "leaf derived%d { type mine%d; }\n", n, n)
+			fmt.Fprintf(&sb, "leaf derivedtwo%d { type mine2%d {%s } }\n", n, n, siteRestrictions[r.Intn(len(siteRestrictions))])
+			fmt.Fprintf(&sb, "container c%d { typedef mine%d { type mine2%d; units \"cu\"; }\n leaf-list inner%d { type mine%d; } }\n", n, n, n, n, n)
+		}
+		if len(pf) == 2 {
+			fmt.Fprintf(&sb, "leaf both { type union { type %s:t; type %s:t; type mine1; type mine22; } }\n", pf[0], pf[1])
+		}
+		sb.WriteString("}\n")
+		return sb.String()
+	}
+	other = append(other, srcFile{"a.yang", importer("a", "pa", "")})
+	if p(35) {
+		// a second importer, pinned independently; a third module derives from its typedefs
+		other = append(other, srcFile{"a2.yang", importer("a2", "pa2", "")})
+		other = append(other, srcFile{"a3.yang", "module a3 { namespace \"urn:a3\"; prefix pa3; import a2 { prefix x; } import a { prefix y; }\n" +
+			"typedef far { type x:mine21 { pattern \"far\"; } }\nleaf f1 { type far; }\nleaf f2 { type y:mine1; }\nleaf f3 { type x:mine1; }\n}\n"})
+	}
+	if !history {
+		files := append(append([]srcFile{}, bFiles...), other...)
+		r.Shuffle(len(files), func(a, b int) { files[a], files[b] = files[b], files[a] })
+		return tcase{ID: id, Files: files}
+	}
+	// history: at least one revision of b is there from the start, at least one comes later
+	k := 1 + r.Intn(len(bFiles)-1)
+	order := r.Perm(len(bFiles))
+	var first, later []srcFile
+	for i, x := range order {
+		if i < k {
+			first = append(first, bFiles[x])
+		} else {
+			later = append(later, bFiles[x])
+		}
+	}
+	first = append(first, other...)
+	r.Shuffle(len(first), func(a, b int) { first[a], first[b] = first[b], first[a] })
+	return tcase{ID: id, Files: first, Later: later}
+}
